@@ -213,6 +213,8 @@ package parser
 // A newline at the top level (no open construct, no pending here-document,
 // not inside an alias) ends the call: lexing stops and nothing more is read.
 //@ func (*lexer).lexToken
+//@   ensures[C03 C07] a-closer-pops-its-construct: (tok == Rbrace || tok == Esac || tok == Fi || tok == Done) && old(len(l.stack)) >= 1 && old(l.stack[len(l.stack)-1]) == tok ==> len(l.stack) == old(len(l.stack)) - 1 && returnsmethod("lexRedir")
+//@   ensures[C03 C07] a-misplaced-closer-ends-lexing: (tok == Rbrace || tok == Esac || tok == Fi || tok == Done) && !(old(len(l.stack)) >= 1 && old(l.stack[len(l.stack)-1]) == tok) ==> result == nil && len(l.stack) == old(len(l.stack))
 //@   ensures[C07 C03] after-a-pipe-the-next-command: tok == '|' && result != nil ==> returnsmethod("lexNextCmd")
 //@   ensures[C07 C03] after-an-and-or-operator-a-pipeline: (tok == AND || tok == OR) && result != nil ==> returnsmethod("lexPipeline")
 //@   ensures[C07 C03] after-a-separator-a-pipeline: tok == '&' || tok == ';' ==> returnsmethod("lexPipeline")
@@ -256,10 +258,14 @@ package parser
 //@   assert[C17] at call parser.(*lexer).subst: assignment-word-first: site(ASSIGN) && !siteret(ASSIGN)
 //@   requires len(l.word) >= 1
 //@ func (*lexer).lexSubshell
+//@   assert[C03 C07] at call parser.(*lexer).emit: emits-its-own-token: arg1 == '('
+//@   ensures[C03 C07] expects-its-closer: l.stack[len(l.stack)-1] == ')' && (forall j: 0 <= j && j < old(len(l.stack)) ==> l.stack[j] == old(l.stack[j]))
 //@   ensures[C07] hands-over-to-the-start-of-a-pipeline: returnsmethod("lexPipeline")
 //@   ensures[C07] opens-one-construct: len(l.stack) == old(len(l.stack)) + 1
 //@   requires tokready(l)
 //@ func (*lexer).lexGroup
+//@   assert[C03 C07] at call parser.(*lexer).emit: emits-its-own-token: arg1 == Lbrace
+//@   ensures[C03 C07] expects-its-closer: l.stack[len(l.stack)-1] == Rbrace && (forall j: 0 <= j && j < old(len(l.stack)) ==> l.stack[j] == old(l.stack[j]))
 //@   ensures[C07] hands-over-to-the-start-of-a-pipeline: returnsmethod("lexPipeline")
 //@   ensures[C07] opens-one-construct: len(l.stack) == old(len(l.stack)) + 1
 //@   requires tokready(l)
@@ -289,30 +295,48 @@ package parser
 //@   ensures[C07 C03] next-case-item-or-stop: result != nil ==> returnsmethod("lexCaseItem")
 //@   requires tokready(l)
 //@ func (*lexer).lexIf
+//@   assert[C03 C07] at call parser.(*lexer).emit: emits-its-own-token: arg1 == If
+//@   ensures[C03 C07] expects-its-closer: l.stack[len(l.stack)-1] == Then && (forall j: 0 <= j && j < old(len(l.stack)) ==> l.stack[j] == old(l.stack[j]))
 //@   ensures[C07] hands-over-to-the-start-of-a-pipeline: returnsmethod("lexPipeline")
 //@   ensures[C07] opens-one-construct: len(l.stack) == old(len(l.stack)) + 1
 //@   requires tokready(l)
 //@ func (*lexer).lexElif
+//@   assert[C03 C07] at call parser.(*lexer).emit: emits-its-own-token: arg1 == Elif
+//@   ensures[C03 C07] only-where-it-is-expected: result != nil ==> old(len(l.stack)) >= 1 && old(l.stack[len(l.stack)-1]) == Fi && l.stack[len(l.stack)-1] == Then
+//@   ensures[C03 C07] misplaced-ends-lexing: !(old(len(l.stack)) >= 1 && old(l.stack[len(l.stack)-1]) == Fi) ==> result == nil
 //@   ensures[C07 C03] continues-with-a-pipeline-or-stops: result != nil ==> returnsmethod("lexPipeline")
 //@   ensures[C07] same-nesting-depth: len(l.stack) == old(len(l.stack)) && (forall j: 0 <= j && j < len(l.stack) - 1 ==> l.stack[j] == old(l.stack[j]))
 //@   requires tokready(l)
 //@ func (*lexer).lexThen
+//@   assert[C03 C07] at call parser.(*lexer).emit: emits-its-own-token: arg1 == Then
+//@   ensures[C03 C07] only-where-it-is-expected: result != nil ==> old(len(l.stack)) >= 1 && old(l.stack[len(l.stack)-1]) == Then && l.stack[len(l.stack)-1] == Fi
+//@   ensures[C03 C07] misplaced-ends-lexing: !(old(len(l.stack)) >= 1 && old(l.stack[len(l.stack)-1]) == Then) ==> result == nil
 //@   ensures[C07 C03] continues-with-a-pipeline-or-stops: result != nil ==> returnsmethod("lexPipeline")
 //@   ensures[C07] same-nesting-depth: len(l.stack) == old(len(l.stack)) && (forall j: 0 <= j && j < len(l.stack) - 1 ==> l.stack[j] == old(l.stack[j]))
 //@   requires tokready(l)
 //@ func (*lexer).lexElse
+//@   assert[C03 C07] at call parser.(*lexer).emit: emits-its-own-token: arg1 == Else
+//@   ensures[C03 C07] only-where-it-is-expected: result != nil ==> old(len(l.stack)) >= 1 && old(l.stack[len(l.stack)-1]) == Fi && l.stack[len(l.stack)-1] == Fi
+//@   ensures[C03 C07] misplaced-ends-lexing: !(old(len(l.stack)) >= 1 && old(l.stack[len(l.stack)-1]) == Fi) ==> result == nil
 //@   ensures[C07 C03] continues-with-a-pipeline-or-stops: result != nil ==> returnsmethod("lexPipeline")
 //@   ensures[C07] same-nesting-depth: len(l.stack) == old(len(l.stack)) && (forall j: 0 <= j && j < len(l.stack) - 1 ==> l.stack[j] == old(l.stack[j]))
 //@   requires tokready(l)
 //@ func (*lexer).lexWhile
+//@   assert[C03 C07] at call parser.(*lexer).emit: emits-its-own-token: arg1 == While
+//@   ensures[C03 C07] expects-its-closer: l.stack[len(l.stack)-1] == Do && (forall j: 0 <= j && j < old(len(l.stack)) ==> l.stack[j] == old(l.stack[j]))
 //@   ensures[C07] hands-over-to-the-start-of-a-pipeline: returnsmethod("lexPipeline")
 //@   ensures[C07] opens-one-construct: len(l.stack) == old(len(l.stack)) + 1
 //@   requires tokready(l)
 //@ func (*lexer).lexUntil
+//@   assert[C03 C07] at call parser.(*lexer).emit: emits-its-own-token: arg1 == Until
+//@   ensures[C03 C07] expects-its-closer: l.stack[len(l.stack)-1] == Do && (forall j: 0 <= j && j < old(len(l.stack)) ==> l.stack[j] == old(l.stack[j]))
 //@   ensures[C07] hands-over-to-the-start-of-a-pipeline: returnsmethod("lexPipeline")
 //@   ensures[C07] opens-one-construct: len(l.stack) == old(len(l.stack)) + 1
 //@   requires tokready(l)
 //@ func (*lexer).lexDo
+//@   assert[C03 C07] at call parser.(*lexer).emit: emits-its-own-token: arg1 == Do
+//@   ensures[C03 C07] only-where-it-is-expected: result != nil ==> old(len(l.stack)) >= 1 && old(l.stack[len(l.stack)-1]) == Do && l.stack[len(l.stack)-1] == Done
+//@   ensures[C03 C07] misplaced-ends-lexing: !(old(len(l.stack)) >= 1 && old(l.stack[len(l.stack)-1]) == Do) ==> result == nil
 //@   ensures[C07 C03] continues-with-a-pipeline-or-stops: result != nil ==> returnsmethod("lexPipeline")
 //@   ensures[C07] same-nesting-depth: len(l.stack) == old(len(l.stack)) && (forall j: 0 <= j && j < len(l.stack) - 1 ==> l.stack[j] == old(l.stack[j]))
 //@   requires tokready(l)
